@@ -154,31 +154,76 @@ def _may_raise(prog, f: FuncInfo, node, after_mutation_ok: Set[str]) -> Optional
 
 
 def _atomic(ctx) -> None:
+    """Vector.__setitem__ on its symx event log (helpers in line): after the first write to self nothing can follow that may
+    raise - an explicit raise, or a call other than the bookkeeping calls (tracker, fingerprint, promotion whose own raises precede
+    its stores) and builtins applied to values the function built itself."""
+    from ..sites2 import interp_of
+    from ..symx import show, subterms
     prog = ctx.prog
     eff = effects_of(prog)
     f = prog.func("vector.Vector.__setitem__")
-    cfg = cfg_of(f)
-    muts = [(n, _mutation_event(prog, f, n, eff)) for n in cfg.stmt_nodes() if cfg.is_reachable(n)]
-    muts = [(n, e) for n, e in muts if e]
+    it = interp_of(prog, f)
+    SELF = ("param", f.params[0])
+    user = {("param", p_) for p_ in f.params[1:]}
+
+    def rooted_in_self(t) -> bool:
+        while t[0] in ("attr", "sub"):
+            t = t[1]
+        return t == SELF
+
+    def mutation(e) -> Optional[str]:
+        if e.kind == "store" and e.term[0] in ("attr", "sub") and rooted_in_self(e.term):
+            return f"store to {show(e.term, it)[:40]}"
+        if e.kind == "call" and e.term[1][0] == "attr":
+            recv, m = e.term[1][1], e.term[1][2]
+            if recv == SELF:
+                tgt = prog.method(f.cls, m) if f.cls else None
+                if m == "_invalidate_fp":
+                    return "call self._invalidate_fp()"
+                if tgt is not None:
+                    sm = eff.summaries.get(tgt.qualname)
+                    if sm and tgt.params and any(w.root == tgt.params[0] and w.kind == "content" for w in sm.writes):
+                        return f"call self.{m}() which writes self"
+            if m in ("register", "unregister") and recv[0] == "name" and recv[1] in ("_alias", "_ALIAS_TRACKER"):
+                return f"tracker {m}"
+        return None
+
+    def may_raise(e) -> Optional[str]:
+        if e.kind == "raise":
+            return f"`raise {show(e.term, it)[:50]}`"
+        if e.kind != "call":
+            return None
+        fn = e.term[1]
+        nm = fn[2] if fn[0] == "attr" else fn[1] if fn[0] == "name" else None
+        if nm in ("register", "unregister", "_invalidate_fp", "with_nullable"):
+            return None
+        if fn == ("attr", SELF, "_promote"):
+            return None               # its raises precede its stores (C03.b.promote) and _can_promote has already said yes
+        if fn[0] == "name" and nm in SAFE_CALLS and not any(x in user for a in e.term[2] for x in subterms(a)):
+            return None
+        if fn[0] == "name" and nm in ("DataType", "<except>"):
+            return None
+        return f"call `{show(e.term, it)[:50]}` (may raise)"
+    muts = [(e, mutation(e)) for e in it.events]
+    muts = [(e, why) for e, why in muts if why]
     if not muts:
         raise AnalysisError("Vector.__setitem__: no write event on self found")
     problems = []
-    for m, ev in muts:
-        for n in cfg.stmt_nodes():
-            if n is m or not cfg.can_reach(m, n) or n.id == m.id:
+    for m, why in muts:
+        for e in it.events:
+            if e is m or mutation(e):
                 continue
-            why = _may_raise(prog, f, n, set())
-            if why and not _mutation_event(prog, f, n, eff):
-                problems.append(f"after `{m.text()}` (line {m.lineno}: {ev}) the operation can still fail at line {n.lineno}: {why} "
-                                f"- the vector would be left changed by a failed assignment")
+            r = may_raise(e)
+            if r and _can_follow(m, e):
+                problems.append(f"after `{show(m.term, it)[:40]}` (line {getattr(m.node, 'lineno', '?')}: {why}) the operation can still fail at "
+                                f"line {getattr(e.node, 'lineno', '?')}: {r} - the vector would be left changed by a failed assignment")
                 break
         if problems:
             break
-    # handlers: an except clause reachable after a mutation is also a failure path
-    first = min(muts, key=lambda x: x[0].lineno)
+    first = min(muts, key=lambda x: x[0].seq)
     ctx.ob("a.validate-then-mutate", f, "atomic", not problems,
-           f"{len(muts)} write events on self, first at line {first[0].lineno} ({first[1]}); nothing that may raise follows any of them",
-           first[0].ast, message="; ".join(problems))
+           f"{len(muts)} write events on self, first at line {getattr(first[0].node, 'lineno', '?')} ({first[1]}); nothing that may raise "
+           f"follows any of them", first[0].node, message="; ".join(problems))
 
 
 def _rename(ctx) -> None:
@@ -293,15 +338,18 @@ def _keys(ctx) -> None:
 
 
 def _untouched(ctx) -> None:
+    from ..sites2 import interp_of
+    from ..symx import show
     prog = ctx.prog
     for q in ("vector.Vector.__setitem__", "vector.Vector._promote"):
         f = prog.func(q)
-        bad = []
-        for s in walk_stmts(f.body):
-            tg = s.targets if isinstance(s, ast.Assign) else [s.target] if isinstance(s, (ast.AugAssign, ast.AnnAssign)) else []
-            for t in tg:
-                if isinstance(t, ast.Attribute) and t.attr in ("_name", "_display_as_row", "name", "_length"):
-                    bad.append(short(s, 50))
+        it = interp_of(prog, f)
+        SELF = ("param", f.params[0])
+        bad = [show(e.term, it)[:40] for e in it.events
+               if e.kind == "store" and e.term[0] == "attr" and e.term[1] == SELF and e.term[2] in ("_name", "_display_as_row", "name", "_length")]
+        bad += [show(e.term, it)[:40] for e in it.events
+                if e.kind == "call" and show(e.term[1], it) in ("object.__setattr__", "setattr") and len(e.term[2]) >= 2
+                and e.term[2][0] == SELF and e.term[2][1][0] == "const" and e.term[2][1][2] in ("_name", "_display_as_row", "name", "_length")]
         ctx.ob("d.untouched", f, "no-name-store", not bad, "no store to _name/_display_as_row", f.node,
                message=f"{q} changes the vector's name/orientation: {bad}")
 
